@@ -398,3 +398,19 @@ impl<T: TransportParticipantFactory> DomainParticipantFactoryAsync<T> {
         self.worker_task.join();
     }
 }
+
+#[cfg(dust_dds_verif)]
+impl<T: TransportParticipantFactory> DomainParticipantFactoryAsync<T> {
+    /// Verification hook: empties the process-wide DCPS mail channel so that consecutive simulated executions in
+    /// one process start from the same (empty) channel.
+    #[doc(hidden)]
+    pub fn verif_clear_channel(&self) {
+        self.dcps_sender.clear();
+    }
+
+    /// Verification hook: number of mails currently queued for the DDS worker.
+    #[doc(hidden)]
+    pub fn verif_channel_len(&self) -> usize {
+        self.dcps_sender.len()
+    }
+}
